@@ -14,7 +14,9 @@ fn term_docs<const N: usize>(m: &[bool; N]) -> Vec<Vec<DocId>> {
   let mut v = Vec::with_capacity(N);
   let mut i = 0;
   while i < N {
-    v.push(vec![if m[i] { 0 } else { 1 }]);
+    let mut d = Vec::with_capacity(1);
+    d.push(if m[i] { 0 } else { 1 });
+    v.push(d);
     i += 1;
   }
   v
@@ -24,9 +26,48 @@ fn groups<const N: usize>() -> Vec<Vec<usize>> {
   let mut v = Vec::with_capacity(N);
   let mut i = 0;
   while i < N {
-    v.push(vec![i]);
+    let mut g = Vec::with_capacity(1);
+    g.push(i);
+    v.push(g);
     i += 1;
   }
+  v
+}
+
+/// Builds a Vec by `push` (typed stores keep enum discriminants constant for the
+/// symbolic executor; `vec![..]` moves the elements with a memcpy, after which
+/// `matches_node` is explored for every variant at every level).
+fn v1(a: QueryMatcher) -> Vec<QueryMatcher> {
+  let mut v = Vec::with_capacity(1);
+  v.push(a);
+  v
+}
+
+fn v2(a: QueryMatcher, b: QueryMatcher) -> Vec<QueryMatcher> {
+  let mut v = Vec::with_capacity(2);
+  v.push(a);
+  v.push(b);
+  v
+}
+
+fn v3(a: QueryMatcher, b: QueryMatcher, c: QueryMatcher) -> Vec<QueryMatcher> {
+  let mut v = Vec::with_capacity(3);
+  v.push(a);
+  v.push(b);
+  v.push(c);
+  v
+}
+
+fn u2(a: usize, b: usize) -> Vec<usize> {
+  let mut v = Vec::with_capacity(2);
+  v.push(a);
+  v.push(b);
+  v
+}
+
+fn u1(a: usize) -> Vec<usize> {
+  let mut v = Vec::with_capacity(1);
+  v.push(a);
   v
 }
 
@@ -81,9 +122,9 @@ fn c07_bool_must_should_mustnot() {
   let m: [bool; 4] = kani::any();
   let msm = any_msm();
   let node = bool_node(
-    vec![QueryMatcher::Term(0)],
-    vec![QueryMatcher::Term(1), QueryMatcher::Term(2)],
-    vec![QueryMatcher::Term(3)],
+    v1(QueryMatcher::Term(0)),
+    v2(QueryMatcher::Term(1), QueryMatcher::Term(2)),
+    v1(QueryMatcher::Term(3)),
     msm,
   );
   let got = eval(&node, &m);
@@ -112,7 +153,7 @@ fn c07_bool_should_only() {
   let msm = any_msm();
   let node = bool_node(
     Vec::new(),
-    vec![QueryMatcher::Term(0), QueryMatcher::Term(1), QueryMatcher::Term(2)],
+    v3(QueryMatcher::Term(0), QueryMatcher::Term(1), QueryMatcher::Term(2)),
     Vec::new(),
     msm,
   );
@@ -138,21 +179,21 @@ fn c07_bool_should_only() {
 #[kani::unwind(6)]
 fn c07_dismax_and_nested_bool() {
   let m: [bool; 4] = kani::any();
-  let dis = QueryMatcher::DisMax(vec![
-    bool_node(vec![QueryMatcher::Term(0)], vec![QueryMatcher::Term(1)], Vec::new(), None),
+  let dis = QueryMatcher::DisMax(v2(
+    bool_node(v1(QueryMatcher::Term(0)), v1(QueryMatcher::Term(1)), Vec::new(), None),
     QueryMatcher::Term(2),
-  ]);
+  ));
   assert!(eval(&dis, &m) == (m[0] || m[2]), "C07: dis_max disagrees with 'any child matches'");
   let nested = bool_node(
-    vec![bool_node(Vec::new(), vec![QueryMatcher::Term(0), QueryMatcher::Term(1)], Vec::new(), None)],
+    v1(bool_node(Vec::new(), v2(QueryMatcher::Term(0), QueryMatcher::Term(1)), Vec::new(), None)),
     Vec::new(),
-    vec![bool_node(vec![QueryMatcher::Term(2), QueryMatcher::Term(3)], Vec::new(), Vec::new(), None)],
+    v1(bool_node(v2(QueryMatcher::Term(2), QueryMatcher::Term(3)), Vec::new(), Vec::new(), None)),
     None,
   );
   assert!(eval(&nested, &m) == ((m[0] || m[1]) && !(m[2] && m[3])), "C07: nested bool disagrees with the documented semantics");
   assert!(eval(&QueryMatcher::MatchAll, &m), "C07: match_all must match");
   assert!(!eval(&QueryMatcher::DisMax(Vec::new()), &m), "C07: empty dis_max must not match");
-  let filter_like = bool_node(vec![QueryMatcher::MatchAll], vec![QueryMatcher::Term(0)], vec![QueryMatcher::Term(1)], None);
+  let filter_like = bool_node(v1(QueryMatcher::MatchAll), v1(QueryMatcher::Term(0)), v1(QueryMatcher::Term(1)), None);
   assert!(eval(&filter_like, &m) == !m[1], "C07: should clause next to must changed the match set");
   kani::cover!(m[0] && !m[2], "dis_max matched through the bool child");
   std::mem::forget(dis);
@@ -172,9 +213,9 @@ fn c07_query_string_matcher() {
   let m: [bool; 3] = kani::any();
   let msm = any_msm();
   let qs = QueryMatcher::QueryString(QueryStringMatcher {
-    term_groups: vec![0, 1],
+    term_groups: u2(0, 1),
     phrase_groups: Vec::new(),
-    not_term_groups: vec![2],
+    not_term_groups: u1(2),
     minimum_should_match: msm,
   });
   let pos = m[0] as usize + m[1] as usize;
@@ -186,7 +227,7 @@ fn c07_query_string_matcher() {
   let neg_only = QueryMatcher::QueryString(QueryStringMatcher {
     term_groups: Vec::new(),
     phrase_groups: Vec::new(),
-    not_term_groups: vec![2],
+    not_term_groups: u1(2),
     minimum_should_match: None,
   });
   assert!(eval(&neg_only, &m) == !m[2], "C07: negated-only query_string must match the documents without the term");
